@@ -86,6 +86,19 @@ func genCase(r *rand.Rand, idx int) *ccase {
 	if r.Intn(4) == 0 {
 		c.DB.Twist = rdcat.Twists[r.Intn(len(rdcat.Twists))]
 	}
+	// result-set shapes that only one kind of statement can have: a third of the cases of the endpoints that read a call tree
+	for _, k := range ep.Kinds {
+		if k == rdcat.KProfTree && r.Intn(3) == 0 {
+			c.DB.Twist, c.DB.Target = rdcat.TwCycle, -1
+			if r.Intn(4) != 0 {
+				c.DB.Mode = "ok"
+			}
+			if r.Intn(3) != 0 {
+				// a request the endpoint accepts, so that the stored tree is read at all
+				c.Gen = rdcat.GenCase{Req: ep.Canon, Endpoint: ep.Name, QueryShape: "canonical"}
+			}
+		}
+	}
 	if c.DB.Mode == "err-row" || c.DB.Mode == "cancel-row" {
 		c.DB.ErrAt = []int{0, 1, 2, 50, 99, 100, 101, 5000}[r.Intn(8)]
 	}
